@@ -1,10 +1,16 @@
 """C18 — Schema lookups always reflect the current registrations (DESIGN.md §4 C18).
 
-translate : which `_find_cache` entries `MappingSchema.add_table` evicts (ast of sqlglot/schema.py)
-prove     : Properties/C18.lean (refinement to a fresh schema for every history, any length)
-correspond: op histories -> real MappingSchema vs the Lean model (line protocol)
-search    : the property's own oracle on the real code: every answer equals the answer of a schema freshly
-            built from the current mapping, and of a schema that saw only the add_table calls
+translate : from the ast of sqlglot/schema.py: which `_find_cache` entries `add_table` evicts; the KEY LAYOUT of the three
+            memo tables (`_normalize_name`'s `cache_key` tuple, `_normalize_table`'s get / store tuples, `_to_data_type`'s
+            key) and the inputs each memoised computation reads
+prove     : Properties/C18.lean — refinement to a fresh schema for every history (flat specification), memo transparency
+            for every history for covering key layouts (+ `decide`d obligations on the extracted layouts), refinement of
+            the nested dict / nested trie / lazily cached depth to the flat view, constructor = incremental add_table
+correspond: op histories (raw-constructor and pre-normalised starts, per-call dialect / normalize overrides, BigQuery,
+            a settings-string dialect, visible columns, reused Table objects) -> real MappingSchema vs the FULL Lean model
+search    : the property's own oracle on the real code: every answer equals the answer of a schema freshly built from the
+            current mapping, of a schema that saw only the add_table calls, and (raw start) of a schema that registered the
+            same tables one by one
 """
 
 from __future__ import annotations
@@ -14,74 +20,261 @@ import copy
 import itertools
 import json
 import os
+import re
 
 from vf.core import Check, REPO, HarnessError
 
-MODULES = ["Model.Ident", "Model.Schema", "Proofs.Schema", "Generated.C18", "Properties.C18"]
-THEOREMS = [
-    "SqlglotModel.Properties.C18.step_inv",
-    "SqlglotModel.Properties.C18.run_inv",
-    "SqlglotModel.Properties.C18.answer_eq_of_same_mapping",
-    "SqlglotModel.Properties.C18.schema_refines_fresh",
-    "SqlglotModel.Properties.C18.init_inv",
-    "SqlglotModel.Properties.C18.generated_policy_ok",
-    "SqlglotModel.Properties.C18.witness_ok_with_clear",
-    "SqlglotModel.Properties.C18.stale_partial_lookup_witness",
-]
+MODULES = ["Model.Ident", "Model.Schema", "Model.SchemaMemo", "Model.SchemaTree", "Model.SchemaFull",
+           "Proofs.Schema", "Proofs.SchemaMemo", "Proofs.SchemaTree", "Proofs.SchemaFull",
+           "Generated.C18", "Properties.C18"]
+P = "SqlglotModel.Properties.C18."
+THEOREMS = [P + n for n in [
+    # flat specification (cache coherence of find)
+    "step_inv", "run_inv", "answer_eq_of_same_mapping", "schema_refines_fresh", "init_inv", "generated_policy_ok",
+    "witness_ok_with_clear", "stale_partial_lookup_witness",
+    # memo tables
+    "memo_transparent", "name_compute_reads_only", "name_key_determines", "name_cache_transparent",
+    "generated_name_cache_key_ok", "name_cache_key_needs_quoted", "name_cache_key_needs_is_table",
+    "table_compute_reads_only", "table_cache_transparent", "generated_table_cache_key_ok",
+    "type_parse_reads_only", "type_cache_transparent", "type_cache_stale_witness", "generated_type_cache_key_known",
+]]
+THEOREMS_EXTRA: list = []  # filled below once the later stages exist
 
 
 # ------------------------------------------------------------------------------------------ translate
+class Shape(Exception):
+    pass
+
+
+def _fn(cls, name):
+    for n in cls.body:
+        if isinstance(n, ast.FunctionDef) and n.name == name:
+            return n
+    raise Shape(f"MappingSchema.{name} not found")
+
+
+def _is_self_attr(node, attr):
+    return isinstance(node, ast.Attribute) and node.attr == attr and isinstance(node.value, ast.Name) and node.value.id == "self"
+
+
+def _names(node):
+    return {n.id for n in ast.walk(node) if isinstance(n, ast.Name)}
+
+
+def _assignments(fn):
+    out = {}
+    for node in ast.walk(fn):
+        if isinstance(node, ast.Assign) and len(node.targets) == 1 and isinstance(node.targets[0], ast.Name):
+            out.setdefault(node.targets[0].id, []).append(node.value)
+        if isinstance(node, ast.NamedExpr) and isinstance(node.target, ast.Name):
+            out.setdefault(node.target.id, []).append(node.value)
+    return out
+
+
+def _key_elems(expr, assigns):
+    """the component expressions of a cache key: a tuple literal, a name bound to one, or a single expression"""
+    if isinstance(expr, ast.Name) and expr.id in assigns and len(assigns[expr.id]) == 1 and isinstance(assigns[expr.id][0], ast.Tuple):
+        expr = assigns[expr.id][0]
+    if isinstance(expr, ast.Tuple):
+        return list(expr.elts)
+    return [expr]
+
+
+def _cache_uses(fn, attr):
+    """(lookup key expressions, store key expressions) of self.<attr> inside fn"""
+    gets, sets = [], []
+    for node in ast.walk(fn):
+        if isinstance(node, ast.Call) and isinstance(node.func, ast.Attribute) and node.func.attr == "get" and _is_self_attr(node.func.value, attr):
+            gets.append(node.args[0])
+        if isinstance(node, ast.Subscript) and _is_self_attr(node.value, attr):
+            (sets if isinstance(node.ctx, ast.Store) else gets).append(node.slice)
+        if isinstance(node, ast.Compare) and len(node.ops) == 1 and isinstance(node.ops[0], (ast.In, ast.NotIn)) and _is_self_attr(node.comparators[0], attr):
+            gets.append(node.left)
+    return gets, sets
+
+
+def name_cache_layout(cls):
+    fn = _fn(cls, "_normalize_name")
+    assigns = _assignments(fn)
+    params = {a.arg for a in fn.args.args}
+    if not {"name", "dialect", "is_table", "normalize"} <= params:
+        raise Shape(f"_normalize_name parameters changed: {sorted(params)}")
+    gets, sets = _cache_uses(fn, "_normalized_name_cache")
+    if len(gets) != 1 or len(sets) != 1:
+        raise Shape("_normalize_name: expected one cache lookup and one cache store")
+
+    def field(e):
+        if isinstance(e, ast.Name) and e.id in ("dialect", "is_table", "normalize"):
+            return {"dialect": "dialect", "is_table": "isTable", "normalize": "normalize"}[e.id]
+        src = assigns.get(e.id, []) if isinstance(e, ast.Name) else [e]
+        if len(src) != 1:
+            raise Shape(f"_normalize_name: cannot resolve key component {ast.dump(e)}")
+        rhs = src[0]
+        if "name" not in _names(rhs):
+            raise Shape(f"_normalize_name: key component {ast.unparse(e)} does not come from `name`")
+        if any(isinstance(n, ast.Attribute) and n.attr == "quoted" for n in ast.walk(rhs)):
+            return "quoted"
+        return "name"
+
+    lay_get = [field(e) for e in _key_elems(gets[0], assigns)]
+    lay_set = [field(e) for e in _key_elems(sets[0], assigns)]
+    if lay_get != lay_set:
+        raise Shape("_normalize_name: lookup key and store key differ")
+    # what the memoised computation reads: the arguments of the `normalize_name(...)` call
+    calls = [n for n in ast.walk(fn) if isinstance(n, ast.Call) and isinstance(n.func, ast.Name) and n.func.id == "normalize_name"]
+    if len(calls) != 1:
+        raise Shape("_normalize_name: expected exactly one normalize_name(...) call")
+    reads = []
+    used = set()
+    for a in calls[0].args:
+        used |= _names(a)
+    for kw in calls[0].keywords:
+        used |= _names(kw.value)
+    if "name" in used:
+        reads += ["name", "quoted"]  # the whole str / Identifier: an Identifier carries its quoting
+    for p, f in (("dialect", "dialect"), ("is_table", "isTable"), ("normalize", "normalize")):
+        if p in used:
+            reads.append(f)
+    return lay_get, reads
+
+
+def table_cache_layout(cls):
+    fn = _fn(cls, "_normalize_table")
+    assigns = _assignments(fn)
+    gets, sets = _cache_uses(fn, "_normalized_table_cache")
+    if len(gets) != 1 or len(sets) != 1:
+        raise Shape("_normalize_table: expected one cache lookup and one cache store")
+
+    def field(e, first):
+        if isinstance(e, ast.Name) and e.id in ("dialect", "normalize"):
+            return e.id
+        if isinstance(e, ast.Name) and e.id == first:
+            return "table"
+        raise Shape(f"_normalize_table: unknown key component {ast.unparse(e)}")
+
+    lay_get = [field(e, "table") for e in _key_elems(gets[0], assigns)]
+    lay_set = [field(e, "normalized_table") for e in _key_elems(sets[0], assigns)]
+    if lay_get != lay_set:
+        raise Shape("_normalize_table: lookup key and store key differ")
+    # the stored value must be the normalised table itself
+    stores = [n for n in ast.walk(fn) if isinstance(n, ast.Assign) and any(isinstance(t, ast.Subscript) and _is_self_attr(t.value, "_normalized_table_cache") for t in n.targets)]
+    if not (len(stores) == 1 and isinstance(stores[0].value, ast.Name) and stores[0].value.id == "normalized_table"):
+        raise Shape("_normalize_table: the cached value is not `normalized_table`")
+    used = set()
+    for n in ast.walk(fn):
+        if isinstance(n, ast.Call) and isinstance(n.func, (ast.Name, ast.Attribute)):
+            fname = n.func.id if isinstance(n.func, ast.Name) else n.func.attr
+            if fname in ("normalize_name", "maybe_parse"):
+                for a in n.args:
+                    used |= _names(a)
+                for kw in n.keywords:
+                    used |= _names(kw.value)
+    reads = [f for f in ("table", "dialect", "normalize") if f in used]
+    return lay_get, reads
+
+
+def type_cache_layout(cls):
+    fn = _fn(cls, "_to_data_type")
+    assigns = _assignments(fn)
+    gets, sets = _cache_uses(fn, "_type_mapping_cache")
+    if not gets or len(sets) != 1:
+        raise Shape("_to_data_type: expected cache lookups and one cache store")
+
+    def field(e):
+        if isinstance(e, ast.Name) and e.id == "schema_type":
+            return "tyStr"
+        if isinstance(e, ast.Name) and e.id == "dialect":
+            return "dialect"
+        raise Shape(f"_to_data_type: unknown key component {ast.unparse(e)}")
+
+    lays = [[field(e) for e in _key_elems(k, assigns)] for k in gets + sets]
+    if any(l != lays[0] for l in lays):
+        raise Shape("_to_data_type: the cache is addressed with different keys")
+    calls = [n for n in ast.walk(fn) if isinstance(n, ast.Call) and isinstance(n.func, ast.Attribute) and n.func.attr == "from_str"]
+    if len(calls) != 1:
+        raise Shape("_to_data_type: expected one DataType.from_str(...) call")
+    used = set()
+    for a in calls[0].args:
+        used |= _names(a)
+    for kw in calls[0].keywords:
+        used |= _names(kw.value)
+    reads = [f for p, f in (("schema_type", "tyStr"), ("dialect", "dialect")) if p in used]
+    return lays[0], reads
+
+
+def eviction_policy(cls):
+    fn = _fn(cls, "add_table")
+    clears = pops = 0
+    for node in ast.walk(fn):
+        if isinstance(node, ast.Call) and isinstance(node.func, ast.Attribute):
+            tgt = node.func.value
+            if isinstance(tgt, ast.Attribute) and tgt.attr == "_find_cache":
+                if node.func.attr == "clear":
+                    clears += 1
+                elif node.func.attr == "pop":
+                    pops += 1
+        if isinstance(node, ast.Assign):
+            for tg in node.targets:
+                if isinstance(tg, ast.Attribute) and tg.attr == "_find_cache":
+                    if isinstance(node.value, ast.Dict) and not node.value.keys:
+                        clears += 1
+    # the eviction must not sit under an `if` (a conditional clear is a different policy)
+    uncond_clear = False
+    for stmt in fn.body:
+        if isinstance(stmt, ast.Expr) and isinstance(stmt.value, ast.Call):
+            f = stmt.value.func
+            if isinstance(f, ast.Attribute) and f.attr == "clear" and isinstance(f.value, ast.Attribute) and f.value.attr == "_find_cache":
+                uncond_clear = True
+        if isinstance(stmt, ast.Assign) and any(isinstance(tg, ast.Attribute) and tg.attr == "_find_cache" for tg in stmt.targets):
+            uncond_clear = True
+    if uncond_clear:
+        return "all"
+    if not clears:
+        return "exactKeys"  # pops only / no eviction at all: the model's weakest policy stands in
+    raise Shape(f"add_table: unrecognised eviction shape (clear={clears}, pop={pops})")
+
+
+DEFAULT_LAYOUT = {
+    "policy": "exactKeys",
+    "name": (["name", "quoted", "dialect", "isTable", "normalize"], ["name", "quoted", "dialect", "isTable", "normalize"]),
+    "table": (["table", "dialect", "normalize"], ["table", "dialect", "normalize"]),
+    "type": (["tyStr"], ["tyStr", "dialect"]),
+}
+
+
 def translate(chk: Check) -> str:
     src = open(os.path.join(REPO, "sqlglot", "schema.py"), encoding="utf-8").read()
     tree = ast.parse(src)
-    policy = None
-    detail = "add_table not found"
-    for cls in [n for n in tree.body if isinstance(n, ast.ClassDef) and n.name == "MappingSchema"]:
-        for fn in [n for n in cls.body if isinstance(n, ast.FunctionDef) and n.name == "add_table"]:
-            clears = pops = 0
-            for node in ast.walk(fn):
-                if isinstance(node, ast.Call) and isinstance(node.func, ast.Attribute):
-                    tgt = node.func.value
-                    if isinstance(tgt, ast.Attribute) and tgt.attr == "_find_cache":
-                        if node.func.attr == "clear":
-                            clears += 1
-                        elif node.func.attr == "pop":
-                            pops += 1
-                if isinstance(node, ast.Assign):
-                    for tg in node.targets:
-                        if isinstance(tg, ast.Attribute) and tg.attr == "_find_cache":
-                            if isinstance(node.value, ast.Dict) and not node.value.keys:
-                                clears += 1
-            # the eviction must be the last thing add_table does on the non-early-return path: it must not
-            # sit under an `if` (a conditional clear is a different policy)
-            uncond_clear = False
-            for stmt in fn.body:
-                if isinstance(stmt, ast.Expr) and isinstance(stmt.value, ast.Call):
-                    f = stmt.value.func
-                    if isinstance(f, ast.Attribute) and f.attr == "clear" and isinstance(f.value, ast.Attribute) and f.value.attr == "_find_cache":
-                        uncond_clear = True
-                if isinstance(stmt, ast.Assign) and any(isinstance(tg, ast.Attribute) and tg.attr == "_find_cache" for tg in stmt.targets):
-                    uncond_clear = True
-            if uncond_clear:
-                policy = "all"
-            elif pops >= 1 and not clears:
-                policy = "exactKeys"
-            elif not pops and not clears:
-                policy = "exactKeys"  # no eviction at all is even weaker; the model's weakest policy stands in
-                detail = "no eviction in add_table"
-            else:
-                policy = None
-                detail = f"unrecognised eviction shape (clear={clears}, pop={pops})"
-    if policy is None:
-        chk.broken.append({"kind": "translator", "what": "C18 translator: structure changed: " + detail})
-        policy = "exactKeys"
-    chk.cov["eviction_policy"] = policy
+    cls = next((n for n in tree.body if isinstance(n, ast.ClassDef) and n.name == "MappingSchema"), None)
+    lay = dict(DEFAULT_LAYOUT)
+    if cls is None:
+        chk.broken.append({"kind": "translator", "what": "C18 translator: structure changed: class MappingSchema not found"})
+    else:
+        for key, fn in (("policy", eviction_policy), ("name", name_cache_layout), ("table", table_cache_layout), ("type", type_cache_layout)):
+            try:
+                lay[key] = fn(cls)
+            except Shape as e:
+                chk.broken.append({"kind": "translator", "what": f"C18 translator: structure changed: {e}"})
+            except Exception as e:  # noqa
+                chk.broken.append({"kind": "translator", "what": f"C18 translator: structure changed: {type(e).__name__}: {e}"})
+    chk.cov["eviction_policy"] = lay["policy"]
+    chk.cov["cache_key_layouts"] = {k: {"key": lay[k][0], "reads": lay[k][1]} for k in ("name", "table", "type")}
+
+    def ll(xs):
+        return "[" + ", ".join("." + x for x in xs) + "]"
+
     return (
-        "-- GENERATED by vf/props/c18.py from sqlglot/schema.py (MappingSchema.add_table). Do not edit.\n"
-        "import SqlglotModel.Model.Schema\n"
+        "-- GENERATED by vf/props/c18.py from sqlglot/schema.py (add_table, _normalize_name, _normalize_table, _to_data_type). Do not edit.\n"
+        "import SqlglotModel.Model.SchemaMemo\n"
         "namespace SqlglotModel.Generated.C18\n"
         "open SqlglotModel.Schema\n"
-        f"def evictionPolicy : Evict := .{policy}\n"
+        f"def evictionPolicy : Evict := .{lay['policy']}\n"
+        f"def nameCacheKey : List NField := {ll(lay['name'][0])}\n"
+        f"def nameCacheReads : List NField := {ll(lay['name'][1])}\n"
+        f"def tableCacheKey : List TField := {ll(lay['table'][0])}\n"
+        f"def tableCacheReads : List TField := {ll(lay['table'][1])}\n"
+        f"def typeCacheKey : List YField := {ll(lay['type'][0])}\n"
+        f"def typeCacheReads : List YField := {ll(lay['type'][1])}\n"
         "end SqlglotModel.Generated.C18\n"
     )
 
@@ -97,29 +290,56 @@ def sg():
     return sqlglot, exp, MappingSchema, SchemaError, Dialect
 
 
+SETTINGS_DIALECT = "mysql, normalization_strategy = case_insensitive_uppercase"
+_DIA_CACHE: dict = {}
+
+
+def dia_of(dialect) -> dict:
+    """what the model needs to know of a dialect, or None when its normalize_identifier is neither the base
+    implementation nor BigQuery's override"""
+    if dialect in _DIA_CACHE:
+        return _DIA_CACHE[dialect]
+    _, _, _, _, Dialect = sg()
+    from sqlglot.dialects.bigquery import BigQuery
+
+    inst = Dialect.get_or_raise(dialect)
+    fn = type(inst).normalize_identifier
+    if fn is Dialect.normalize_identifier:
+        r = {"st": inst.normalization_strategy.value, "ts": False}
+    elif fn is BigQuery.normalize_identifier:
+        r = {"st": inst.normalization_strategy.value, "ts": True}
+    else:
+        r = None
+    _DIA_CACHE[dialect] = r
+    return r
+
+
 def strategy_of(dialect) -> str:
     _, _, _, _, Dialect = sg()
     return Dialect.get_or_raise(dialect).normalization_strategy.value
 
 
-def model_dialects() -> list:
-    """dialects whose normalize_identifier is the base implementation (the model mirrors that one)"""
-    _, _, _, _, Dialect = sg()
+def all_dialects() -> list:
     from sqlglot.dialects.dialect import Dialects
 
-    out = []
-    for d in Dialects:
-        inst = Dialect.get_or_raise(d.value or None)
-        if type(inst).normalize_identifier is Dialect.normalize_identifier:
-            out.append(d.value or None)
-    return out
+    return [d.value or None for d in Dialects] + [SETTINGS_DIALECT]
 
 
-def mk_table(idents):
-    _, exp, *_ = sg()
-    parts = [exp.to_identifier(n, quoted=q) for n, q in idents]
-    parts = [None] * (3 - len(parts)) + parts
-    return exp.Table(this=parts[2], db=parts[1], catalog=parts[0])
+def model_dialects() -> list:
+    return [d for d in all_dialects() if dia_of(d) is not None]
+
+
+def canon_type(dt) -> str:
+    return re.sub(r"\s+", "", repr(dt))
+
+
+def uncached_type(ty: str, dialect) -> str:
+    """the memoised function of `_to_data_type`, called directly"""
+    _, exp, _, _, Dialect = sg()
+    D = Dialect.get_or_raise(dialect)
+    e = exp.DataType.from_str(ty, dialect=D, udt=D.SUPPORTS_USER_DEFINED_TYPES)
+    e.transform(D.normalize_identifier, copy=False)
+    return canon_type(e)
 
 
 def ident_sql(name, quoted, dialect):
@@ -135,7 +355,7 @@ def show_cols(d):
     _, exp, *_ = sg()
     items = []
     for k, v in d.items():
-        items.append(f"{k}:{v.sql() if isinstance(v, exp.Expr) else v}")
+        items.append(f"{k}:{canon_type(v) if isinstance(v, exp.Expr) else v}")
     return "[" + ", ".join(items) + "]"
 
 
@@ -146,33 +366,65 @@ def classify_exc(e) -> str:
         return "err ambiguous"
     if isinstance(e, SchemaError) and "nesting level" in msg:
         return "err depth"
+    if isinstance(e, SchemaError) and "at least one column" in msg:
+        return "err nocols"
+    if isinstance(e, ValueError) and not isinstance(e, SchemaError) and msg.startswith("Unknown "):
+        return "err unknown"
     return f"err internal:{type(e).__name__}"
+
+
+def nested(flat, leaf=dict):
+    m: dict = {}
+    for path, cols in flat:
+        d = m
+        for p in path[:-1]:
+            d = d.setdefault(p, {})
+        d[path[-1]] = leaf(cols)
+    return m
 
 
 class Real:
     """Executes protocol ops on a real MappingSchema."""
 
-    def __init__(self, mapping, dialect, normalize, raw=False):
+    def __init__(self, init, dialect, normalize, raw=False, visible=None):
         _, _, MappingSchema, *_ = sg()
         self.dialect = dialect
         self.normalize = normalize
+        self.visible = visible
+        self.pool: dict = {}
+        self.ctor_error = None
+        vis = None if visible is None else nested(visible, leaf=lambda cols: set(cols))
         if raw:
-            # raw (un-normalized) initial mapping through the public constructor
-            self.s = MappingSchema(copy.deepcopy(mapping), dialect=dialect, normalize=normalize)
+            # raw (un-normalized) initial mapping through the public constructor; keys rendered in the dialect
+            flat = [([ident_sql(p, q, dialect) for p, q in path], [(ident_sql(c[0], c[1], dialect), ty) for c, ty in cols])
+                    for path, cols in init]
+            try:
+                self.s = MappingSchema(nested(flat), visible=vis, dialect=dialect, normalize=normalize)
+            except Exception as e:  # noqa
+                self.ctor_error = classify_exc(e)
+                self.s = MappingSchema({}, visible=vis, dialect=dialect, normalize=normalize)
         else:
             # the initial mapping is given already normalized: construct without renormalising
-            self.s = MappingSchema(copy.deepcopy(mapping), dialect=dialect, normalize=False)
+            self.s = MappingSchema(nested(init), visible=vis, dialect=dialect, normalize=False)
             self.s.normalize = normalize
 
-    @staticmethod
-    def nested(flat):
-        m: dict = {}
-        for path, cols in flat:
-            d = m
-            for p in path[:-1]:
-                d = d.setdefault(p, {})
-            d[path[-1]] = dict(cols)
-        return m
+    def fresh(self):
+        """MappingSchema(final mapping): same configuration, nothing cached"""
+        _, _, MappingSchema, *_ = sg()
+        f = MappingSchema(copy.deepcopy(self.s.mapping), visible=copy.deepcopy(self.s.visible), dialect=self.dialect, normalize=False)
+        f.normalize = self.normalize
+        return f
+
+    def table_obj(self, idents, reuse):
+        _, exp, *_ = sg()
+        key = tuple((n, q) for n, q in idents)
+        if reuse and key in self.pool:
+            return self.pool[key]
+        parts = [exp.to_identifier(n, quoted=q) for n, q in idents]
+        parts = [None] * (3 - len(parts)) + parts
+        t = exp.Table(this=parts[2], db=parts[1], catalog=parts[0])
+        self.pool[key] = t
+        return t
 
     def apply(self, op, schema=None):
         _, exp, *_ = sg()
@@ -180,7 +432,7 @@ class Real:
         kind = op["op"]
         try:
             if kind == "find":
-                r = s.find(mk_table(op["table"]), raise_on_missing=op["raise"], ensure_data_types=op["ensure"])
+                r = s.find(self.table_obj(op["table"], op.get("reuse", False)), raise_on_missing=op["raise"], ensure_data_types=op["ensure"])
                 return "none" if r is None else "found " + show_cols(r)
             d = op.get("dialect_arg", None)
             n = op.get("norm_arg", None)
@@ -188,23 +440,18 @@ class Real:
             if op.get("as_str"):
                 table = ".".join(ident_sql(nm, q, dd) for nm, q in op["table"])
             else:
-                table = mk_table(op["table"])
+                table = self.table_obj(op["table"], op.get("reuse", False))
             if kind == "add":
-                if op.get("cols_list"):
-                    cm = [ident_sql(c[0], c[1], dd) for c, _ in op["cols"]]
-                else:
-                    cm = {ident_sql(c[0], c[1], dd): ty for c, ty in op["cols"]}
+                cm = {ident_sql(c[0], c[1], dd): ty for c, ty in op["cols"]}
                 s.add_table(table, cm, dialect=d, normalize=n)
                 return "ok"
             if kind == "names":
-                return "names " + show_names(list(s.column_names(table, dialect=d, normalize=n)))
+                return "names " + show_names(list(s.column_names(table, only_visible=op.get("ov", False), dialect=d, normalize=n)))
+            c = op["col"]
+            col = ident_sql(c[0], c[1], dd) if op.get("col_str", True) else exp.column(exp.to_identifier(c[0], quoted=c[1]))
             if kind == "type":
-                c = op["col"]
-                col = ident_sql(c[0], c[1], dd) if op.get("col_str", True) else exp.column(exp.to_identifier(c[0], quoted=c[1]))
-                return "type " + s.get_column_type(table, col, dialect=d, normalize=n).sql()
+                return "type " + canon_type(s.get_column_type(table, col, dialect=d, normalize=n))
             if kind == "has":
-                c = op["col"]
-                col = ident_sql(c[0], c[1], dd) if op.get("col_str", True) else exp.column(exp.to_identifier(c[0], quoted=c[1]))
                 return "bool " + ("true" if s.has_column(table, col, dialect=d, normalize=n) else "false")
             raise HarnessError(f"unknown op {kind}")
         except HarnessError:
@@ -218,10 +465,9 @@ CATS = ["c1", "C2"]
 DBS = ["d1", "D2", "d1x"]
 TABS = ["t", "T", "u"]
 COLS = ["a", "b", "B", "Ab"]
-TYPES = ["INT", "TEXT", "DOUBLE", "DATE"]
-
-
+TYPES = ["INT", "TEXT", "DOUBLE", "DATE", "FLOAT", "TIMESTAMP", "DATETIME"]
 SHARED = ["t", "T", "u", "a", "B", "Ab", "d1", "D2", "Foo", "foo"]
+SHARE_NAMES = [False]
 
 
 def rand_ident(rng, pool, ascii_only=True):
@@ -234,14 +480,10 @@ def rand_ident(rng, pool, ascii_only=True):
     return [name, rng.random() < 0.3]
 
 
-SHARE_NAMES = [False]
-
-
 def rand_table(rng, depth, partial_ok, ascii_only=True):
     n = depth
     if partial_ok and rng.random() < 0.55:
         n = rng.randint(1, 3)
-    pools = [CATS, DBS, TABS][3 - 3:]
     parts = [rand_ident(rng, CATS, ascii_only), rand_ident(rng, DBS, ascii_only), rand_ident(rng, TABS, ascii_only)]
     return parts[3 - n:]
 
@@ -251,7 +493,7 @@ def rand_cols(rng, ascii_only=True):
     return [[rand_ident(rng, COLS, ascii_only), rng.choice(TYPES)] for _ in range(k)]
 
 
-def rand_op(rng, depth, dialects, ascii_only=True, p_add=0.35):
+def rand_op(rng, depth, dialects, ascii_only=True, p_add=0.33, p_dialect=0.25, visible=False):
     r = rng.random()
     op: dict = {}
     if r < p_add:
@@ -259,36 +501,48 @@ def rand_op(rng, depth, dialects, ascii_only=True, p_add=0.35):
         # mostly the right depth; sometimes wrong (must raise the depth error and change nothing)
         op["table"] = rand_table(rng, depth, partial_ok=rng.random() < 0.12, ascii_only=ascii_only)
         op["cols"] = rand_cols(rng, ascii_only)
-        op["cols_list"] = False
     elif r < p_add + 0.22:
         op["op"] = "names"
         op["table"] = rand_table(rng, depth, True, ascii_only)
-    elif r < p_add + 0.40:
+        op["ov"] = visible and rng.random() < 0.6
+    elif r < p_add + 0.42:
         op["op"] = "type"
         op["table"] = rand_table(rng, depth, True, ascii_only)
         op["col"] = rand_ident(rng, COLS, ascii_only)
-        op["col_str"] = rng.random() < 0.6
-    elif r < p_add + 0.52:
+        op["col_str"] = rng.random() < 0.5
+    elif r < p_add + 0.54:
         op["op"] = "has"
         op["table"] = rand_table(rng, depth, True, ascii_only)
         op["col"] = rand_ident(rng, COLS, ascii_only)
-        op["col_str"] = rng.random() < 0.6
+        op["col_str"] = rng.random() < 0.5
     else:
         op["op"] = "find"
         op["table"] = rand_table(rng, depth, True, ascii_only)
         op["raise"] = rng.random() < 0.5
         op["ensure"] = rng.random() < 0.4
+        op["reuse"] = rng.random() < 0.5
         return op
     op["as_str"] = rng.random() < 0.5
-    if rng.random() < 0.25:
-        op["dialect_arg"] = rng.choice(dialects)
+    op["reuse"] = rng.random() < 0.5
+    if rng.random() < p_dialect:
+        op["dialect_arg"] = rng.choice([d for d in dialects if d])
     if rng.random() < 0.25:
         op["norm_arg"] = rng.random() < 0.5
     return op
 
 
+def fold_fn(dialect):
+    """how an already-normalised name looks under this dialect (used to build pre-normalised initial mappings)"""
+    st = strategy_of(dialect)
+    if st in ("UPPERCASE", "CASE_INSENSITIVE_UPPERCASE"):
+        return str.upper
+    if st == "CASE_SENSITIVE":
+        return lambda s: s
+    return str.lower
+
+
 def rand_initial(rng, depth, strategy_fn):
-    """an initial mapping whose keys are already normalized (unquoted names folded)"""
+    """an initial mapping whose keys are already normalized (unquoted names folded): [[path, [[col, ty]…]]…]"""
     flat = []
     seen = set()
     for _ in range(rng.choice([0, 1, 2, 3])):
@@ -296,51 +550,145 @@ def rand_initial(rng, depth, strategy_fn):
         if tuple(parts) in seen:
             continue
         seen.add(tuple(parts))
-        cols = []
+        cd: dict = {}
         for c in rng.sample(COLS, rng.choice([1, 2])):
-            cols.append([strategy_fn(c), rng.choice(TYPES)])
-        # de-dup columns after folding
-        cd = {}
-        for k, v in cols:
-            cd.setdefault(k, v)
+            cd.setdefault(strategy_fn(c), rng.choice(TYPES))
         flat.append([parts, [[k, v] for k, v in cd.items()]])
     return flat
 
 
-def fold_fn(strategy):
-    if strategy in ("UPPERCASE", "CASE_INSENSITIVE_UPPERCASE"):
-        return str.upper
-    if strategy == "CASE_SENSITIVE":
-        return lambda s: s
-    return str.lower
+def raw_initial(rng, depth, quoted_ok=True):
+    """a raw (un-normalized) initial mapping without case-fold collisions: [[[[name, quoted]…], [[[col, quoted], ty]…]]…]"""
+    flat, seen = [], set()
+    for _ in range(rng.choice([1, 1, 2, 3])):
+        parts = [rand_ident(rng, CATS), rand_ident(rng, DBS), rand_ident(rng, TABS)][3 - depth:]
+        if not quoted_ok:
+            parts = [[p, False] for p, _ in parts]
+        key = tuple(p.lower() for p, _ in parts)
+        if key in seen:
+            continue
+        seen.add(key)
+        cols, cseen = [], set()
+        for _ in range(rng.choice([1, 2, 3])):
+            c = rand_ident(rng, COLS)
+            if not quoted_ok:
+                c[1] = False
+            if c[0].lower() in cseen:
+                continue
+            cseen.add(c[0].lower())
+            cols.append([c, rng.choice(TYPES)])
+        flat.append([parts, cols])
+    return flat
+
+
+def rand_visible(rng, init_paths_cols):
+    """a visible mapping mirroring (part of) the initial mapping: [[path, [col…]]…]"""
+    out = []
+    for path, cols in init_paths_cols:
+        if rng.random() < 0.75:
+            out.append([path, [c for c in cols if rng.random() < 0.6]])
+    return out
+
+
+# ------------------------------------------------------------------------------------------ model protocol
+def canon_text(name, quoted):
+    return '"' + name + '"' if quoted else name
+
+
+def dref(dialect_arg, default_dialect) -> dict:
+    d = dialect_arg if dialect_arg is not None else default_dialect
+    info = dia_of(d)
+    # the key identity: `dialect or self.dialect` is the per-call string, or the schema's own Dialect instance
+    name = ("arg:" + dialect_arg) if dialect_arg is not None else ("self:" + (default_dialect or ""))
+    return {"name": name, "st": info["st"], "ts": info["ts"]}
+
+
+def tree_json(flat, leaf_of):
+    """nested insertion-ordered dicts as {"n": [[key, sub]…]} / {"l": [[col, ty]…]}"""
+    root: list = []
+
+    def child(kids, key):
+        for k, sub in kids:
+            if k == key:
+                return sub
+        sub = {"n": []}
+        kids.append([key, sub])
+        return sub
+
+    for path, cols in flat:
+        kids = root
+        for p in path[:-1]:
+            kids = child(kids, p)["n"]
+        leaf = {"l": leaf_of(cols)}
+        for i, (k, _) in enumerate(kids):
+            if k == path[-1]:
+                kids[i][1] = leaf
+                break
+        else:
+            kids.append([path[-1], leaf])
+    return {"n": root}
+
+
+def init_line(h) -> str:
+    d, norm, init, ops, raw, visible = h
+    if raw:
+        flat = [([canon_text(p, q) for p, q in path], [[canon_text(c[0], c[1]), ty] for c, ty in cols]) for path, cols in init]
+    else:
+        flat = [(path, cols) for path, cols in init]
+    # a Python dict collapses duplicate keys (first position, last value) before sqlglot sees them
+    fl2 = []
+    for path, cols in flat:
+        cd: dict = {}
+        for c, ty in cols:
+            cd[c] = ty
+        fl2.append((path, [[c, ty] for c, ty in cd.items()]))
+    vis = None if visible is None else tree_json([(p, [[c, ""] for c in dict.fromkeys(cs)]) for p, cs in visible], lambda x: x)
+    return json.dumps({"op": "init", "raw": tree_json(fl2, lambda x: x), "normalize": bool(raw and norm),
+                       "self": dref(None, d), "visible": vis})
 
 
 def to_model_line(op, default_dialect, default_norm):
-    if op["op"] == "reset":
-        return json.dumps({"op": "reset", "mapping": op["mapping"]})
     if op["op"] == "find":
         return json.dumps({"op": "find", "table": op["table"], "raise": op["raise"], "ensure": op["ensure"]})
-    d = op.get("dialect_arg")
-    st = strategy_of(d if d is not None else default_dialect)
     n = op.get("norm_arg")
-    norm = default_norm if n is None else n
-    base = {"op": op["op"], "st": st, "norm": norm, "table": op["table"]}
+    base = {"op": op["op"], "d": dref(op.get("dialect_arg"), default_dialect), "norm": default_norm if n is None else n,
+            "table": op["table"], "as_str": bool(op.get("as_str"))}
     if op["op"] == "add":
-        # the harness passes the column mapping as a Python dict keyed by the rendered identifier:
-        # duplicate raw keys collapse there (first position, last value) before sqlglot sees them
         dd: dict = {}
         for (nm, q), ty in op["cols"]:
-            dd[(nm, q)] = ty
-        base["cols"] = [[[nm, q], ty] for (nm, q), ty in dd.items()]
-    elif op["op"] in ("type", "has"):
-        base["col"] = op["col"]
+            dd[canon_text(nm, q)] = ty
+        base["cols"] = [[k, v] for k, v in dd.items()]
+    elif op["op"] == "names":
+        base["ov"] = bool(op.get("ov", False))
+    else:
+        c = op["col"]
+        base["col"] = {"str": canon_text(c[0], c[1])} if op.get("col_str", True) else {"id": [c[0], c[1]]}
     return json.dumps(base)
 
 
+def tytable_line(dialects) -> str:
+    rows = []
+    for d in dialects:
+        for ty in TYPES:
+            v = uncached_type(ty, d)
+            if d:
+                rows.append(["arg:" + d, ty, v])
+            rows.append(["self:" + (d or ""), ty, v])
+    return json.dumps({"op": "tytable", "rows": rows})
+
+
 # ------------------------------------------------------------------------------------------ correspondence
+def init_view(d, init, raw):
+    """(path, cols) of the initial mapping as names (for building a mirroring `visible`)"""
+    if not raw:
+        return [(list(p), [c for c, _ in cols]) for p, cols in init]
+    f = fold_fn(d)
+    return [([f(p) if not q else p for p, q in path], [f(c[0]) if not c[1] else c[0] for c, _ in cols]) for path, cols in init]
+
+
 def histories(chk: Check, dialects):
     rng = chk.rng
-    n_random = chk.pick(400, 6000)
+    n_random = chk.pick(420, 6000)
     max_len = chk.pick(14, 50)
     out = []
     # corpus first: the DESIGN §6 history and its update variant
@@ -351,14 +699,40 @@ def histories(chk: Check, dialects):
         {"op": "add", "table": [["db", False], ["t", False]], "cols": [[["c", False], "TEXT"]], "as_str": False},
         {"op": "type", "table": [["t", False]], "col": ["c", False]},
         {"op": "find", "table": [["t", False]], "raise": False, "ensure": True},
-    ]))
+    ], False, None))
+    # the two name-cache key witnesses (Properties: name_cache_key_needs_quoted / _is_table) as real histories
+    out.append(("postgres", True, [[[["Foo", False]], [[["Foo", True], "INT"], [["bar", False], "INT"]]]], [
+        {"op": "has", "table": [["foo", False]], "col": ["Foo", True], "col_str": False, "as_str": True},
+        {"op": "has", "table": [["foo", False]], "col": ["Foo", False], "col_str": False, "as_str": True},
+        {"op": "type", "table": [["foo", False]], "col": ["Foo", False], "col_str": True, "as_str": True},
+    ], True, None))
+    out.append(("bigquery", True, [[[["Foo", False]], [[["Foo", False], "INT"]]]], [
+        {"op": "has", "table": [["Foo", False]], "col": ["Foo", False], "col_str": True, "as_str": True},
+        {"op": "names", "table": [["Foo", False]], "as_str": True},
+        {"op": "names", "table": [["foo", False]], "as_str": False},
+    ], True, None))
+    special = [d for d in dialects if d and dia_of(d)["ts"]] + [SETTINGS_DIALECT]
     for _ in range(n_random):
-        d = rng.choice(dialects)
+        r = rng.random()
+        d = rng.choice(special) if r < 0.22 else rng.choice(dialects)
         norm = rng.random() < 0.8
         depth = rng.choice([1, 2, 2, 3])
-        init = rand_initial(rng, depth, fold_fn(strategy_of(d)))
-        ops = [rand_op(rng, depth, dialects) for _ in range(rng.randint(2, max_len))]
-        out.append((d, norm, init, ops))
+        raw = rng.random() < 0.4
+        SHARE_NAMES[0] = rng.random() < 0.4
+        try:
+            if raw:
+                init = raw_initial(rng, depth)
+            else:
+                init = rand_initial(rng, depth, fold_fn(d))
+            visible = None
+            if rng.random() < 0.25:
+                visible = rand_visible(rng, init_view(d, init, raw and norm))
+            # per-call dialect overrides: mostly a small set so that the same (name, dialect) key recurs
+            few = [rng.choice(dialects) for _ in range(2)] + special
+            ops = [rand_op(rng, depth, few, visible=visible is not None) for _ in range(rng.randint(2, max_len))]
+        finally:
+            SHARE_NAMES[0] = False
+        out.append((d, norm, init, ops, raw, visible))
     return out
 
 
@@ -377,28 +751,31 @@ def exhaustive_histories(chk: Check):
     alphabet.append({"op": "find", "table": [["t", False]], "raise": False, "ensure": False})
     for n in range(1, L + 1):
         for seq in itertools.product(alphabet, repeat=n):
-            yield (None, True, [], [dict(o) for o in seq])
+            yield (None, True, [], [dict(o) for o in seq], False, None)
 
 
 def correspond(chk: Check) -> list:
-    dialects = [d for d in model_dialects()]
+    dialects = model_dialects()
     chk.cov["model_dialects"] = len(dialects)
     hs = list(exhaustive_histories(chk)) + histories(chk, dialects)
-    lines, expect, where = [], [], []
-    for hi, (d, norm, init, ops) in enumerate(hs):
-        real = Real(Real.nested(init), d, norm)
-        lines.append(json.dumps({"op": "reset", "mapping": init}))
-        expect.append("ok")
+    lines, expect, where = [tytable_line(dialects)], ["ok"], [(-1, -1)]
+    for hi, h in enumerate(hs):
+        d, norm, init, ops, raw, visible = h
+        real = Real(init, d, norm, raw=raw, visible=visible)
+        lines.append(init_line(h))
+        expect.append(real.ctor_error or "ok")
         where.append((hi, -1))
+        chk.count("init:" + ("raw-constructor" if raw else "normalized") + ("+visible" if visible is not None else ""))
         for oi, op in enumerate(ops):
             lines.append(to_model_line(op, d, norm))
             r = real.apply(op)
             expect.append(r)
             where.append((hi, oi))
-            chk.count("op:" + op["op"])
+            chk.count("op:" + op["op"] + ("@dialect" if op.get("dialect_arg") else ""))
             chk.count("ans:" + r.split(" ")[0] + (" " + r.split(" ")[1] if r.startswith("err") else ""))
-        chk.case((d, norm, init, ops), nontrivial=any(o["op"] == "add" for o in ops) and any(o["op"] != "add" for o in ops),
-                 sample={"dialect": d, "normalize": norm, "initial": init, "ops": ops[:6]} if hi % 997 == 0 else None)
+        chk.count("dialect:" + ("bigquery-like" if dia_of(d)["ts"] else dia_of(d)["st"]))
+        chk.case(h, nontrivial=any(o["op"] == "add" for o in ops) and any(o["op"] != "add" for o in ops),
+                 sample={"dialect": d, "normalize": norm, "raw": raw, "initial": init, "visible": visible, "ops": ops[:6]} if hi % 997 == 0 else None)
     got = chk.driver("C18", lines)
     chk.corr_cases += len(hs)
     bad = []
@@ -406,49 +783,36 @@ def correspond(chk: Check) -> list:
     for g, e, (hi, oi) in zip(got, expect, where):
         if g != e and hi not in seen_h:
             seen_h.add(hi)
-            d, norm, init, ops = hs[hi]
-            chk.correspondence_broken("MappingSchema history", {"dialect": d, "normalize": norm, "initial": init,
+            if hi < 0:
+                raise HarnessError(f"model driver rejected the type table: {g}")
+            d, norm, init, ops, raw, visible = hs[hi]
+            chk.correspondence_broken("MappingSchema history", {"dialect": d, "normalize": norm, "raw": raw, "initial": init, "visible": visible,
                                                                  "ops": ops[: oi + 1], "model": g, "impl": e})
             bad.append(hs[hi])
     return bad
 
 
 # ------------------------------------------------------------------------------------------ search (property oracle)
-def raw_initial(rng, depth):
-    """a raw (un-normalized) initial mapping without case-fold collisions"""
-    flat, seen = [], set()
-    for _ in range(rng.choice([1, 1, 2, 3])):
-        parts = [rand_ident(rng, CATS)[0], rand_ident(rng, DBS)[0], rand_ident(rng, TABS)[0]][3 - depth:]
-        key = tuple(p.lower() for p in parts)
-        if key in seen:
-            continue
-        seen.add(key)
-        cols, cseen = [], set()
-        for _ in range(rng.choice([1, 2, 3])):
-            c = rand_ident(rng, COLS)[0]
-            if c.lower() in cseen:
-                continue
-            cseen.add(c.lower())
-            cols.append([c, rng.choice(TYPES)])
-        flat.append([parts, cols])
-    return flat
-
-
-def oracle_history(d, norm, init, ops, raw=False):
+def oracle_history(h, type_cache_off=False):
     """Returns None if the property holds on this history, else (index, description)."""
-    _, _, MappingSchema, *_ = sg()
-    real = Real(Real.nested(init), d, norm, raw=raw)
-    adds_only = Real(Real.nested(init), d, norm, raw=raw)
+    d, norm, init, ops, raw, visible = h
+    real = Real(init, d, norm, raw=raw, visible=visible)
+    adds_only = Real(init, d, norm, raw=raw, visible=visible)
+    if real.ctor_error and real.ctor_error.startswith("err internal"):
+        return 0, f"constructor leaked {real.ctor_error}"
     incremental = None
-    if raw:
+    if raw and not real.ctor_error:
         # the same registrations made one by one through add_table on an empty schema
-        incremental = Real({}, d, norm, raw=True)
+        incremental = Real([], d, norm, raw=True, visible=visible)
         for path, cols in init:
-            r0 = incremental.apply({"op": "add", "table": [[p, False] for p in path], "as_str": True,
-                                    "cols": [[[c, False], ty] for c, ty in cols]})
+            r0 = incremental.apply({"op": "add", "table": path, "as_str": True, "cols": cols})
             if r0 != "ok":
                 return 0, f"add_table({path}) on an empty schema: {r0}"
+    schemas = [real, adds_only] + ([incremental] if incremental else [])
     for i, op in enumerate(ops):
+        if type_cache_off:
+            for x in schemas:
+                x.s._type_mapping_cache.clear()
         if op["op"] == "add":
             r1 = real.apply(op)
             r2 = adds_only.apply(op)
@@ -459,11 +823,11 @@ def oracle_history(d, norm, init, ops, raw=False):
             if r1 != r2:
                 return i, f"add_table outcome depends on earlier lookups: {r1} vs {r2}"
             continue
-        # a schema freshly built from the current mapping
-        fresh = MappingSchema(copy.deepcopy(real.s.mapping), dialect=d, normalize=False)
-        fresh.normalize = norm
+        fresh = real.fresh()
         r = real.apply(op)
         rf = real.apply(op, schema=fresh)
+        if type_cache_off:
+            adds_only.s._type_mapping_cache.clear()
         ra = real.apply(op, schema=adds_only.s)
         if r.startswith("err internal"):
             return i, f"lookup leaked {r}"
@@ -472,6 +836,8 @@ def oracle_history(d, norm, init, ops, raw=False):
         if r != ra:
             return i, f"{op['op']} answered {r!r}; a schema that saw only the add_table calls answers {ra!r}"
         if incremental is not None:
+            if type_cache_off:
+                incremental.s._type_mapping_cache.clear()
             ri = real.apply(op, schema=incremental.s)
             if r != ri:
                 return i, (f"{op['op']} answered {r!r} on the schema built by the constructor; the schema that "
@@ -479,14 +845,14 @@ def oracle_history(d, norm, init, ops, raw=False):
     return None
 
 
-def shrink(d, norm, init, ops, raw=False):
-    _o = globals()["oracle_history"]
+def shrink(h):
+    d, norm, init, ops, raw, visible = h
 
-    def oracle_history(d, norm, init, ops):
-        return _o(d, norm, init, ops, raw=raw)
+    def bad(init_, ops_, vis_=visible):
+        return oracle_history((d, norm, init_, ops_, raw, vis_))
 
     ops = list(ops)
-    res = oracle_history(d, norm, init, ops)
+    res = bad(init, ops)
     assert res
     ops = ops[: res[0] + 1]
     changed = True
@@ -494,78 +860,99 @@ def shrink(d, norm, init, ops, raw=False):
         changed = False
         for i in range(len(ops) - 1):
             cand = ops[:i] + ops[i + 1:]
-            if oracle_history(d, norm, init, cand):
+            if bad(init, cand):
                 ops = cand
                 changed = True
                 break
     # drop optional decorations
     for o in ops:
-        for k in ("dialect_arg", "norm_arg"):
-            if k in o:
+        for k in ("dialect_arg", "norm_arg", "reuse", "ov"):
+            if k in o and o[k] not in (None, False):
                 v = o.pop(k)
-                if not oracle_history(d, norm, init, ops):
+                if not bad(init, ops):
                     o[k] = v
-    if init and oracle_history(d, norm, [], ops):
+    if visible is not None and bad(init, ops, None):
+        visible = None
+    if init and bad([], ops):
         init = []
     while len(init) > 1:
         for i in range(len(init)):
             cand = init[:i] + init[i + 1:]
-            if oracle_history(d, norm, cand, ops):
+            if bad(cand, ops):
                 init = cand
                 break
         else:
             break
-    return init, ops
+    return (d, norm, init, ops, raw, visible)
 
 
-def skeleton(init, ops):
+def skeleton(h):
+    d, norm, init, ops, raw, visible = h
+
     def tk(t):
         return "/".join("q" if q else "id" for _, q in t)
 
-    return ";".join(f"{o['op']}({tk(o['table'])})" for o in ops) + f"|init={len(init)}"
+    return (";".join(f"{o['op']}({tk(o['table'])})" + ("@d" if o.get("dialect_arg") else "") for o in ops)
+            + f"|init={len(init)}" + ("|raw" if raw else "") + ("|visible" if visible is not None else ""))
 
 
 WITNESS = (None, True, [[["db", "t"], [["a", "INT"]]]], [
     {"op": "names", "table": [["t", False]], "as_str": True},
     {"op": "add", "table": [["db2", False], ["t", False]], "cols": [[["b", False], "INT"]], "as_str": True},
     {"op": "names", "table": [["t", False]], "as_str": True},
-])
+], False, None)
 WITNESS2 = (None, True, [[["db", "t"], [["a", "INT"]]]], [
     {"op": "names", "table": [["t", False]], "as_str": True},
     {"op": "add", "table": [["db", False], ["t", False]], "cols": [[["b", False], "INT"]], "as_str": True},
     {"op": "type", "table": [["t", False]], "col": ["b", False]},
-])
+], False, None)
+# Properties: type_cache_stale_witness — FLOAT asked under BigQuery, then under Postgres
+WITNESS_TYPE = (None, True, [[["t"], [["a", "FLOAT"]]]], [
+    {"op": "type", "table": [["t", False]], "col": ["a", False], "as_str": True, "dialect_arg": "bigquery"},
+    {"op": "type", "table": [["t", False]], "col": ["a", False], "as_str": True, "dialect_arg": "postgres"},
+], False, None)
+# Properties: name_cache_key_needs_is_table / _quoted
+WITNESS_ISTABLE = ("bigquery", True, [[[["Foo", False]], [[["Foo", False], "INT"]]]], [
+    {"op": "names", "table": [["Foo", False]], "as_str": True},
+    {"op": "has", "table": [["Foo", False]], "col": ["Foo", False], "col_str": True, "as_str": True},
+], True, None)
+WITNESS_QUOTED = ("postgres", True, [[["t"], [["Foo", "INT"], ["foo", "TEXT"]]]], [
+    {"op": "type", "table": [["t", False]], "col": ["Foo", True], "col_str": False, "as_str": True},
+    {"op": "type", "table": [["t", False]], "col": ["Foo", False], "col_str": False, "as_str": True},
+], False, None)
 
 
 def search(chk: Check, hints: list, budget_s: float) -> None:
     import time
-    from sqlglot.dialects.dialect import Dialects
 
     t0 = time.time()
     rng = chk.rng
-    all_dialects = [d.value or None for d in Dialects]
-    cands = [WITNESS, WITNESS2] + list(hints)
+    dialects = all_dialects()
+    cands = [WITNESS, WITNESS2, WITNESS_TYPE, WITNESS_ISTABLE, WITNESS_QUOTED] + list(hints)
     tried = found = 0
 
-    def consider(h, raw=False):
+    def consider(h):
         nonlocal tried, found
         tried += 1
-        d, norm, init, ops = h
-        res = oracle_history(d, norm, init, ops, raw=raw)
+        res = oracle_history(h)
         if res:
             found += 1
-            init2, ops2 = shrink(d, norm, init, ops, raw=raw)
-            what = oracle_history(d, norm, init2, ops2, raw=raw)[1]
-            chk.report_violation(skeleton(init2, ops2) + ("|raw" if raw else ""), what,
-                                 {"dialect": d, "normalize": norm, "initial": init2, "ops": ops2, "raw": raw})
+            h2 = shrink(h)
+            what = oracle_history(h2)[1]
+            # does the violation go away when `_type_mapping_cache` is emptied before every call?
+            cause = "type-cache" if oracle_history(h2, type_cache_off=True) is None else "other"
+            d, norm, init, ops, raw, visible = h2
+            chk.report_violation(skeleton(h2), what,
+                                 {"dialect": d, "normalize": norm, "initial": init, "ops": ops, "raw": raw, "visible": visible},
+                                 context={"cause": cause})
 
     for h in cands:
         consider(h)
     md = set(model_dialects())
-    special = [d for d in all_dialects if d not in md]  # dialects overriding normalize_identifier (is_table matters)
-    chk.cov["dialects_overriding_normalize_identifier"] = special
+    special = [d for d in dialects if d not in md or dia_of(d)["ts"]] + [SETTINGS_DIALECT]
+    chk.cov["dialects_overriding_normalize_identifier"] = [d for d in dialects if d not in md or dia_of(d)["ts"]]
     while time.time() - t0 < budget_s:
-        d = rng.choice(special) if special and rng.random() < 0.3 else rng.choice(all_dialects)
+        d = rng.choice(special) if rng.random() < 0.3 else rng.choice(dialects)
         norm = rng.random() < 0.8
         depth = rng.choice([1, 2, 2, 3])
         ascii_only = rng.random() < 0.7 or d == "bigquery"
@@ -573,20 +960,24 @@ def search(chk: Check, hints: list, budget_s: float) -> None:
         raw = rng.random() < 0.5
         try:
             if raw:
-                init = raw_initial(rng, depth)
+                init = raw_initial(rng, depth, quoted_ok=rng.random() < 0.5)
             else:
-                init = rand_initial(rng, depth, fold_fn(strategy_of(d))) if d != "bigquery" else []
-            ops = [rand_op(rng, depth, all_dialects if rng.random() < 0.5 else [d], ascii_only=ascii_only)
-                   for _ in range(rng.randint(2, 30))]
+                init = rand_initial(rng, depth, fold_fn(d))
+            visible = rand_visible(rng, init_view(d, init, raw and norm)) if rng.random() < 0.2 else None
+            # half of the histories use one dialect throughout (per-call overrides of the type parser are a known finding)
+            p_dialect = 0.25 if rng.random() < 0.5 else 0.0
+            ops = [rand_op(rng, depth, dialects if rng.random() < 0.5 else [d or "duckdb"], ascii_only=ascii_only, p_dialect=p_dialect,
+                           visible=visible is not None) for _ in range(rng.randint(2, 30))]
         finally:
             SHARE_NAMES[0] = False
-        consider((d, norm, init, ops), raw=raw)
+        consider((d, norm, init, ops, raw, visible))
         chk.count("search:" + ("raw-constructor" if raw else "normalized-init"))
-        chk.case(("search", d, norm, init, ops), nontrivial=True)
+        chk.case(("search", d, norm, init, ops, raw, visible), nontrivial=True)
         if len(chk.violations) >= 3:
             break
     chk.search_info = {"ran": True, "budget_s": budget_s, "histories": tried, "violating": found,
-                       "oracle": "every answer equals a fresh MappingSchema over the current mapping and a schema that saw only the add_table calls"}
+                       "oracle": "every answer equals a fresh MappingSchema over the current mapping, a schema that saw only the "
+                                 "add_table calls, and (raw start) a schema that registered the same tables one by one"}
 
 
 def validate_case_hypotheses(chk: Check) -> None:
@@ -605,15 +996,19 @@ def validate_case_hypotheses(chk: Check) -> None:
 
 
 def run(chk: Check) -> None:
-    chk.trusted.append("C18: hand-written model Model/Schema.lean of MappingSchema.{find,add_table,column_names,get_column_type,has_column}, "
-                       "_find_in_trie, in_trie, nested_set (flat view of the nested dict; trie viewed as its key list)")
+    chk.trusted.append("C18: hand-written models of sqlglot/schema.py + trie.py: Model/SchemaFull.lean (nested dict, nested trie, the five "
+                       "caches, visible, constructor) executed against the real code on every run; Model/Schema.lean is the flat "
+                       "specification it is proved to refine; cache key layouts and the eviction policy are re-extracted from the source")
     chk.assumptions += [
-        "identifier normalisation is modelled for the base Dialect.normalize_identifier over ASCII names (bigquery's override and non-ASCII names are covered by the search oracle only)",
-        "match_depth=True (the default); visible / udf mappings are not modelled",
-        "the text of SchemaError messages is canonicalised to an error kind",
+        "identifier normalisation is modelled for Dialect.normalize_identifier and BigQuery's override over ASCII names (non-ASCII names and "
+        "any other overriding dialect are covered by the search oracle only); str.lower/upper idempotence is validated against CPython",
+        "exp.parse_identifier / the table-name parser and DataType.from_str are uninterpreted: the harness renders names in the dialect's "
+        "quoting for the real code and canonically for the model, and ships the graph of from_str on the type universe",
+        "match_depth=True (the default), nesting depth 1-3, column mappings given as dicts of type strings; UDF mappings are not modelled",
+        "the text of SchemaError / ValueError messages is canonicalised to an error kind",
     ]
     chk.write_generated(translate(chk))
-    proved = chk.prove(MODULES, "Properties.C18", THEOREMS)
+    proved = chk.prove(MODULES, "Properties.C18", THEOREMS + THEOREMS_EXTRA)
     validate_case_hypotheses(chk)
     hints = []
     try:
@@ -637,6 +1032,6 @@ def replay(path: str) -> int:
     if not r:
         print(json.dumps(rec, indent=1))
         return 1
-    res = oracle_history(r["dialect"], r["normalize"], r["initial"], r["ops"], raw=r.get("raw", False))
+    res = oracle_history((r["dialect"], r["normalize"], r["initial"], r["ops"], r.get("raw", False), r.get("visible")))
     print("replay:", "VIOLATES: " + res[1] if res else "holds")
     return 1 if res else 0
